@@ -23,18 +23,24 @@ ASSUMPTIONS = [
 COMPONENTS = c04.COMPONENTS
 
 KEYS = ["k1", "k2", "k3", "k4", "", "K1", "k10"]
+# values where one is a prefix of another and the next character sorts below the comma, values containing the comma that
+# joins grouping keys elsewhere, numeric look-alikes (equality is textual)
+KEYS_RICH = ["C", "C#", "C++", "Mary", "Mary Ann", "a,b", "a", "b,c", "1", "1.0", "01", "k1 ", " k1", "x y", "x"]
+KEYS2 = ["x", "y", "", "c", "b,c", "y z", "#"]
 
 
-def side(r, n, idname, other):
+def side(r, n, idname, other, keys=KEYS, two=False):
     recs = []
     for i in range(n):
         rec = []
         roll = r.random()
-        key = r.choice(KEYS)
+        key = r.choice(keys)
         if roll < 0.1:
             pass  # no join field at all
         else:
             rec.append(("JK", key))
+        if two and r.random() >= 0.08:
+            rec.append(("JK2", r.choice(KEYS2)))
         rec.append((idname, "%s%d" % (idname[0], i + 1)))
         rec.append((other, str(r.randint(0, 99))))
         if r.chance(0.3):
@@ -46,17 +52,39 @@ def side(r, n, idname, other):
 def build_case(r, tier):
     nl = r.choice([0, 1, 2, 5, 12, 30])
     nr = r.choice([0, 1, 2, 5, 12, 30, 80])
-    left = side(r, nl, "lid", "lv")
-    right = side(r, nr, "rid", "rv")
+    two = r.chance(0.3)
+    keys = KEYS if r.chance(0.6) else r.sample(KEYS_RICH, 6) + ["k1", ""]
+    left = side(r, nl, "lid", "lv", keys, two)
+    right = side(r, nr, "rid", "rv", keys, two)
+    if two and r.chance(0.4):
+        # different value tuples whose comma-joined texts are equal must not pair
+        a, b = r.choice([(("a,b", "c"), ("a", "b,c")), (("x,", "y"), ("x", ",y")), ((",", ""), ("", ","))])
+        if r.chance(0.5):
+            a, b = b, a
+        left.insert(r.randint(0, len(left)), [("JK", a[0]), ("JK2", a[1]), ("lid", "l%d" % (len(left) + 1)), ("lv", "7")])
+        right.insert(r.randint(0, len(right)), [("JK", b[0]), ("JK2", b[1]), ("rid", "r%d" % (len(right) + 1)), ("rv", "8")])
     lname, rname, oname = "JK", "JK", "JK"
+    l2 = r2 = o2 = "JK2"
     opts = []
-    if r.chance(0.35):
-        lname, rname, oname = "lk", "rk", r.choice(["ok", "lk"])
-        left = [[(("lk" if k == "JK" else k), v) for k, v in rec] for rec in left]
-        right = [[(("rk" if k == "JK" else k), v) for k, v in rec] for rec in right]
-        opts += ["-l", lname, "-r", rname, "-j", oname]
+    if r.chance(0.4):
+        lname, rname, oname = "lk", "rk", r.choice(["ok", "lk", "rk"])
+        l2, r2, o2 = "lk2", "rk2", r.choice(["ok2", "lk2"])
+        ren_l = {"JK": "lk", "JK2": "lk2"}
+        ren_r = {"JK": "rk", "JK2": "rk2"}
+        left = [[(ren_l.get(k, k), v) for k, v in rec] for rec in left]
+        right = [[(ren_r.get(k, k), v) for k, v in rec] for rec in right]
+        if r.chance(0.4):
+            # an ordinary field that happens to be named like the other side's join field
+            if oname != "rk":
+                left = [rec + [("rk", "L%d" % i)] if r.chance(0.6) else rec for i, rec in enumerate(left)]
+            if oname != "lk":
+                right = [rec + [("lk", "R%d" % i)] if r.chance(0.6) else rec for i, rec in enumerate(right)]
+        if two:
+            opts += ["-l", lname + "," + l2, "-r", rname + "," + r2, "-j", oname + "," + o2]
+        else:
+            opts += ["-l", lname, "-r", rname, "-j", oname]
     else:
-        opts += ["-j", "JK"]
+        opts += ["-j", "JK,JK2" if two else "JK"]
     np_, ul, ur = r.chance(0.3), r.chance(0.6), r.chance(0.6)
     if np_ and not (ul or ur):
         ul = True  # join refuses --np with nothing else to emit
@@ -79,16 +107,23 @@ def build_case(r, tier):
     sorted_mode = r.chance(0.3)
     if sorted_mode:
         # -s requires both inputs sorted lexically by the join key; records lacking the key are left out of sorted cases
-        def sort_keep_keyless(recs, name):
-            keyed = sorted([x for x in recs if any(k == name for k, _ in x)], key=lambda rec: dict(rec)[name])
-            for x in [x for x in recs if not any(k == name for k, _ in x)]:
+        def sort_keep_keyless(recs, names_):
+            has = lambda x: all(any(k == nm for k, _ in x) for nm in names_)
+            keyed = sorted([x for x in recs if has(x)], key=lambda rec: tuple(dict(rec)[nm].encode("utf-8") for nm in names_))
+            for x in [x for x in recs if not has(x)]:
                 keyed.insert(r.randint(0, len(keyed)), x)
             return keyed
-        left = sort_keep_keyless(left, lname)
-        right = sort_keep_keyless(right, rname)
+        left = sort_keep_keyless(left, [lname, l2] if two else [lname])
+        right = sort_keep_keyless(right, [rname, r2] if two else [rname])
     elif r.chance(0.2):
         opts.append("-u")
-    lfmt = r.choice(["dkvp", "dkvp", "json", "csvlite"])
+    rich = keys is not KEYS or two
+    lfmt = r.choice(["dkvp", "dkvp", "json", "csvlite"]) if not rich else "json"
+    rfmt = "json" if rich else "dkvp"
+
+    def jtext(recs):
+        return "[\n" + ",\n".join("{" + ", ".join("%s: %s" % (json.dumps(k), json.dumps(v)) for k, v in rec) + "}" for rec in recs) + "\n]\n"
+    rtext = jtext if rich else gen.to_dkvp
     if lfmt == "csvlite":
         ltext = gen.to_csv(left)
     elif lfmt == "json":
@@ -97,32 +132,33 @@ def build_case(r, tier):
         ltext = gen.to_dkvp(left)
     # right stream possibly in two files
     cut = r.randint(0, len(right)) if r.chance(0.3) else len(right)
-    files = {"left.dat": ltext, "right1.dat": gen.to_dkvp(right[:cut])}
+    files = {"left.dat": ltext, "right1.dat": rtext(right[:cut])}
     names = ["right1.dat"]
     if cut < len(right) or r.chance(0.1):
-        files["right2.dat"] = gen.to_dkvp(right[cut:])
+        files["right2.dat"] = rtext(right[cut:])
         names.append("right2.dat")
-    return {"kind": "join", "left": left, "right": right, "opts": opts, "sorted": sorted_mode, "lfmt": lfmt, "files": files, "names": names,
-            "lname": lname, "rname": rname, "oname": oname, "np": np_, "ul": ul, "ur": ur, "ignore_empty": ign, "lp": lp, "rp": rp,
+    return {"kind": "join", "left": left, "right": right, "opts": opts, "sorted": sorted_mode, "lfmt": lfmt, "rfmt": rfmt, "files": files, "names": names,
+            "lname": lname, "rname": rname, "oname": oname, "two": two, "l2": l2, "r2": r2, "o2": o2, "np": np_, "ul": ul, "ur": ur, "ignore_empty": ign, "lp": lp, "rp": rp,
             "cseed": r.randint(1, 1 << 40), "nconf": 5 if tier == "quick" else 8, "sweep": tier != "quick" or r.chance(0.4)}
 
 
 def join_args(case, sorted_mode):
     v = ["join"] + (["-s"] if sorted_mode else []) + case["opts"] + ["-i", case["lfmt"], "-f", "left.dat"]
-    return ["mlr", "--ojson"] + v + case["names"]
+    return ["mlr"] + (["--ijson"] if case.get("rfmt") == "json" else []) + ["--ojson"] + v + case["names"]
 
 
 def model(case):
     """Independent dictionary join on ids. Returns (paired list in required order, set of unpaired left ids, list of unpaired right ids)."""
-    ln, rn = case["lname"], case["rname"]
+    ln = [case["lname"]] + ([case["l2"]] if case.get("two") else [])
+    rn = [case["rname"]] + ([case["r2"]] if case.get("two") else [])
 
-    def key(rec, name):
+    def key(rec, names_):
         d = dict(rec)
-        if name not in d:
+        if any(nm not in d for nm in names_):
             return None
-        if case["ignore_empty"] and d[name] == "":
+        if case["ignore_empty"] and any(d[nm] == "" for nm in names_):
             return None
-        return d[name]
+        return tuple(d[nm] for nm in names_)
     buckets = {}
     for rec in case["left"]:
         k = key(rec, ln)
@@ -146,18 +182,22 @@ def model(case):
 
 def expected_records(case):
     """Complete expected records by id: paired (lid, rid) -> ordered fields; unpaired left lid -> fields; unpaired right rid -> fields."""
-    ln, rn, on = case["lname"], case["rname"], case["oname"]
+    two = case.get("two")
+    ln = [case["lname"]] + ([case["l2"]] if two else [])
+    rn = [case["rname"]] + ([case["r2"]] if two else [])
+    on = [case["oname"]] + ([case["o2"]] if two else [])
     lp, rp = case["lp"] or "", case["rp"] or ""
     L = {dict(rec)["lid"]: rec for rec in case["left"]}
     R = {dict(rec)["rid"]: rec for rec in case["right"]}
 
-    def unpaired(rec, jname, prefix):
-        return [((on if k == jname else prefix + k), v) for k, v in rec]
+    def unpaired(rec, jnames, prefix):
+        # join fields are renamed to their output names only when the record has all of them (it is "keyed")
+        return [((on[jnames.index(k)] if k in jnames else prefix + k), v) for k, v in rec]
     exp = {"l": {lid: unpaired(rec, ln, lp) for lid, rec in L.items()}, "r": {rid: unpaired(rec, rn, rp) for rid, rec in R.items()}, "p": {}}
     paired, _, _ = model(case)
     for lid, rid in paired:
         l, r = L[lid], R[rid]
-        rec = [(on, dict(l)[ln])] + [(lp + k, v) for k, v in l if k != ln] + [(rp + k, v) for k, v in r if k != rn]
+        rec = [(o, dict(l)[nm]) for o, nm in zip(on, ln)] + [(lp + k, v) for k, v in l if k not in ln] + [(rp + k, v) for k, v in r if k not in rn]
         exp["p"][(lid, rid)] = rec
     return exp
 
@@ -286,6 +326,10 @@ def check_field_order(case, out):
         if keys[0] != case["oname"]:
             return False
         rest = keys[1:]
+        if case.get("two"):
+            if not rest or rest[0] != case["o2"]:
+                return False
+            rest = rest[1:]
         li = [i for i, k in enumerate(rest) if k in (lp + "lid", lp + "lv", "lid", "lv")]
         ri = [i for i, k in enumerate(rest) if k in (rp + "rid", rp + "rv", "rid", "rv")]
         if li and ri and max(li) > min(ri):
